@@ -16,6 +16,15 @@ From yash-env/src/system/virtual/file_system.rs, `FileSystem::get`: the permissi
   for a name to be looked up in it (`permissions.contains(Mode::USER_EXEC)`), with the value of the named
   `Mode` constant read from the `bitflags!` table of yash-env/src/system/file_system.rs.
 
+Wave 3 (control constants of the search itself):
+  * `fn search_dir`: the `file_exists` argument of `push_component` in each of the three arms of
+    `match to_pattern(this).map(Pattern::into_literal)` (`None` / `Some(Ok(_))` / `Some(Err(_))`) — which kinds
+    of component are assumed to exist without `fstatat`; arms in any order, any binding names;
+  * `fn file_exists`: the `follow symlinks` argument of `fstatat(AT_FDCWD, &path, <bool>)`;
+  * `fn glob`: the comparison of the final sort (`a.value.cmp(&b.value)` ascending / `b.value.cmp(&a.value)`
+    descending; also `sort_unstable_by_key(|f| f.value...)`, `Ord::cmp(&a.value, &b.value)`) and the fallback
+    test (`results.is_empty()` / `results.len() == 0`), and that the option test is `== Off`.
+
 Accepted equivalent shapes (harmless refactorings): the Config as field assignments, as a struct literal
 with `..Config::default()` / `..Default::default()`, with any binding name; `!=` chains or
 `!matches!(name, "." | "..")` or `![".", ".."].contains(&name)` for the skipped names; `c"."` or
@@ -274,6 +283,135 @@ def _search_bit(h, vfs_src, modes_src):
     return mask, how == "contains", names
 
 
+def _split_arms(h, body, what):
+    """Top-level arms `<pattern> => <expr>` of the first `match … {` of `body`: list of (pattern, text)."""
+    m = re.search(r"\bmatch\s+to_pattern\b[^{]*\{", body)
+    if not m:
+        h.fail(f"{what}: `match to_pattern(..).map(Pattern::into_literal) {{` not found")
+    i = m.end()
+    depth, j, start, arms, pat = 1, i, i, [], None
+    paren = 0
+    while j < len(body) and depth > 0:
+        c = body[j]
+        if c == '"':
+            j += 1
+            while body[j] != '"':
+                j += 2 if body[j] == "\\" else 1
+        elif c == "'" and body[j + 1:j + 2] == "\\":
+            j = body.index("'", j + 2)
+        elif c == "'" and body[j + 2:j + 3] == "'":
+            j += 2
+        elif c in "{":
+            depth += 1
+        elif c in "}":
+            depth -= 1
+            if depth == 1 and paren == 0 and pat is not None:
+                # a block arm ends here
+                arms.append((pat, body[start:j + 1]))
+                pat, start = None, j + 1
+        elif c == "(":
+            paren += 1
+        elif c == ")":
+            paren -= 1
+        elif depth == 1 and paren == 0 and body.startswith("=>", j) and pat is None:
+            pat = body[start:j].strip().lstrip(",").strip()
+            start = j + 2
+            j += 1
+        elif depth == 1 and paren == 0 and c == "," and pat is not None:
+            arms.append((pat, body[start:j]))
+            pat, start = None, j + 1
+        j += 1
+    if pat is not None:
+        arms.append((pat, body[start:j - 1]))
+    return arms
+
+
+def _arm_flags(h, glob_src):
+    body = _fn_body(h, glob_src, "search_dir", GLOB)
+    arms = _split_arms(h, body, f"{GLOB} search_dir")
+    flags = {}
+    for pat, text in arms:
+        p = re.sub(r"\s", "", pat)
+        if p == "None":
+            kind = "invalid"
+        elif re.fullmatch(r"Some\(Ok\((?:ref)?\w+\)\)", p):
+            kind = "literal"
+        elif re.fullmatch(r"Some\(Err\((?:ref)?(?:mut)?\w+\)\)", p):
+            kind = "pattern"
+        else:
+            h.fail(f"{GLOB} search_dir: arm pattern `{pat}` is none of None / Some(Ok(_)) / Some(Err(_))")
+        calls = re.findall(r"\bpush_component\s*\(\s*\w+\s*,\s*([^,]+),", text)
+        if len(calls) != 1:
+            h.fail(f"{GLOB} search_dir: arm `{pat}` has {len(calls)} calls of push_component, expected one")
+        if kind in flags:
+            h.fail(f"{GLOB} search_dir: two arms for the {kind} case")
+        flags[kind] = _bool(h, calls[0], f"{GLOB} search_dir arm `{pat}`: file_exists argument")
+    if sorted(flags) != ["invalid", "literal", "pattern"]:
+        h.fail(f"{GLOB} search_dir: arms found for {sorted(flags)}, expected invalid/literal/pattern")
+    # the parameter order of push_component must be (suffix, file_exists, push)
+    m = re.search(r"\bfn\s+push_component\b[^(]*\(\s*&mut\s+self\s*,\s*(\w+)\s*:[^,]+,\s*(\w+)\s*:\s*bool\s*,", glob_src)
+    if not m:
+        h.fail(f"{GLOB} push_component: signature is not (&mut self, suffix: .., file_exists: bool, ..)")
+    pbody = _fn_body(h, glob_src, "push_component", GLOB)
+    fe = m.group(2)
+    if not re.search(r"\bif\s+" + re.escape(fe) + r"\s*\|\|\s*self\s*\.\s*file_exists\s*\(\s*\)", pbody) and \
+       not re.search(r"\bif\s+self\s*\.\s*file_exists\s*\(\s*\)\s*\|\|\s*" + re.escape(fe) + r"\b", pbody):
+        h.fail(f"{GLOB} push_component: `if {fe} || self.file_exists()` not found")
+    return flags
+
+
+def _follow(h, glob_src):
+    body = _fn_body(h, glob_src, "file_exists", GLOB)
+    ms = re.findall(r"\.\s*fstatat\s*\(\s*AT_FDCWD\s*,\s*&?\s*\w+\s*,\s*([^)]+?)\s*\)", body)
+    if len(ms) != 1:
+        h.fail(f"{GLOB} file_exists: expected one `fstatat(AT_FDCWD, &path, <follow>)`, found {len(ms)}")
+    if not re.search(r"\.\s*is_ok\s*\(\s*\)", body):
+        h.fail(f"{GLOB} file_exists: the result is not `fstatat(..).is_ok()`")
+    return _bool(h, ms[0], f"{GLOB} file_exists: follow-symlinks argument")
+
+
+def _glob_fn(h, glob_src):
+    body = _fn_body(h, glob_src, "glob", GLOB)
+    if not re.search(r"\.get\(\s*(?:yash_env::option::)?(?:Option::)?Glob\s*\)\s*==\s*(?:State::)?Off\b", body) and \
+       not re.search(r"\b(?:State::)?Off\s*==\s*\w+(?:\.\w+)*\.get\(\s*(?:yash_env::option::)?(?:Option::)?Glob\s*\)", body):
+        h.fail(f"{GLOB} glob: the test `options.get(Glob) == Off` was not found")
+    # fallback test
+    m = re.search(r"\bif\s+(\w+)\s*\.\s*is_empty\s*\(\s*\)\s*\{", body) or \
+        re.search(r"\bif\s+(\w+)\s*\.\s*len\s*\(\s*\)\s*==\s*0\s*\{", body)
+    if not m:
+        h.fail(f"{GLOB} glob: the fallback test `if results.is_empty()` was not found")
+    res = m.group(1)
+    # the `if` branch must be the fallback (remove_quotes_and_strip) and the else branch the sort
+    tail = body[m.end():]
+    k_fallback = tail.find("remove_quotes_and_strip")
+    k_else = tail.find("else")
+    if k_fallback < 0 or k_else < 0 or k_fallback > k_else:
+        h.fail(f"{GLOB} glob: the branch taken for empty results is not the `remove_quotes_and_strip` one")
+    # the sort
+    asc = None
+    m = re.search(re.escape(res) + r"\s*\.\s*sort(?:_unstable)?_by\s*\(\s*\|\s*(\w+)\s*,\s*(\w+)\s*\|\s*([^;]+?)\)\s*;", body)
+    if m:
+        a, b_, expr = m.group(1), m.group(2), re.sub(r"\s", "", m.group(3))
+        if expr in (f"{a}.value.cmp(&{b_}.value)", f"Ord::cmp(&{a}.value,&{b_}.value)",
+                    f"{a}.value.as_str().cmp({b_}.value.as_str())", f"{a}.value.as_bytes().cmp({b_}.value.as_bytes())"):
+            asc = True
+        elif expr in (f"{b_}.value.cmp(&{a}.value)", f"Ord::cmp(&{b_}.value,&{a}.value)",
+                      f"{a}.value.cmp(&{b_}.value).reverse()"):
+            asc = False
+    else:
+        m = re.search(re.escape(res) + r"\s*\.\s*sort(?:_unstable)?_by_key\s*\(\s*\|\s*(\w+)\s*\|\s*([^;]+?)\)\s*;", body)
+        if m:
+            f_, expr = m.group(1), re.sub(r"\s", "", m.group(2))
+            if expr in (f"{f_}.value.clone()", f"{f_}.value.to_owned()", f"{f_}.value.to_string()"):
+                asc = True
+            elif expr in (f"Reverse({f_}.value.clone())", f"std::cmp::Reverse({f_}.value.clone())"):
+                asc = False
+    if asc is None:
+        h.fail(f"{GLOB} glob: the final sort of `{res}` (`sort_unstable_by(|a, b| a.value.cmp(&b.value))`) "
+               "was not found in a shape the translator can classify")
+    return asc
+
+
 def glob_tables(h):
     glob_src = _strip_comments(h.read(GLOB))
     # only the code before the unit tests
@@ -290,6 +428,9 @@ def glob_tables(h):
     pushed = _pushed_sep(h, glob_src)
     symloop = _symloop(h, virt_src)
     mask, need_all, mask_names = _search_bit(h, vfs_src, modes_src)
+    flags = _arm_flags(h, glob_src)
+    follow = _follow(h, glob_src)
+    asc = _glob_fn(h, glob_src)
 
     def b(x):
         return "true" if x else "false"
@@ -321,7 +462,17 @@ def glob_tables(h):
         f"{'contain' if need_all else 'intersect'} {' | '.join('Mode::' + n for n in mask_names)} = 0o{mask:o} -/\n"
         f"def searchMask : Nat := {mask}\n"
         f"/-- `contains` (all bits of the mask) rather than `intersects` (any bit) -/\n"
-        f"def searchNeedsAll : Bool := {b(need_all)}\n"
+        f"def searchNeedsAll : Bool := {b(need_all)}\n\n"
+        "/-! the `file_exists` argument of `push_component` in the three arms of `search_dir`: is a component of\n"
+        "    that kind assumed to exist without `fstatat`? -/\n"
+        f"def assumeExistInvalid : Bool := {b(flags['invalid'])}\n"
+        f"def assumeExistLiteral : Bool := {b(flags['literal'])}\n"
+        f"def assumeExistPattern : Bool := {b(flags['pattern'])}\n\n"
+        "/-- `SearchEnv::file_exists`: the follow-symlinks argument of `fstatat(AT_FDCWD, &path, ..)` -/\n"
+        f"def existFollowsLinks : Bool := {b(follow)}\n\n"
+        "/-- `glob`: the final sort is ascending in `a.value.cmp(&b.value)`; the fallback is taken for empty\n"
+        "    results; the expansion is skipped when the `Glob` option is `Off` (both checked by the translator) -/\n"
+        f"def sortAscending : Bool := {b(asc)}\n"
     )
     h.write("GlobTables", body)
 
